@@ -113,6 +113,13 @@ def curves(draw, pmin=0, pmax=4, kmax=4, rational=None, dim=None, nums=("frac",)
     if w is not None and negweights and draw(st.integers(0, 7)) == 0:
         # the same rational curve written with all weights negative (the weight function still has no zero)
         w = [-x for x in w]
+    elif w is not None and negweights and n >= 3 and draw(st.integers(0, 7)) == 0:
+        # one interior weight slightly negative while the weight *function* stays positive (decided exactly)
+        i = draw(st.integers(1, n - 2))
+        trial = list(w)
+        trial[i] = -min(w[i - 1], w[i + 1]) / draw(st.sampled_from([10, 5, 20]))
+        if weight_function_positive(U, p, trial):
+            w = trial
     num = draw(st.sampled_from(list(nums)))
     if regimes and num in ("frac", "fracint") and draw(st.integers(0, 7)) == 0:
         # numeric regimes, exact profile only: knots around +-1e6, very short / very long parameter intervals,
@@ -134,6 +141,40 @@ def curves(draw, pmin=0, pmax=4, kmax=4, rational=None, dim=None, nums=("frac",)
         # the control points handed over as a list of separate arrays; equal points are the same object
         out["ptform"] = "arrays"
     return out
+
+
+def weight_function_positive(U, p, w, depth=5):
+    """Exact sufficient test: every Bezier piece of sum_i w_i N_i has positive Bernstein coefficients after at most
+    ``depth`` de Casteljau halvings.  False also means 'undecided'."""
+    from . import oracle
+    from .oracle import State
+    if p == 0:
+        return all(x > 0 for x in w)
+    bk = breaks_of(U)
+    Ub = [bk[0]] * (p + 1)
+    for z in bk[1:-1]:
+        Ub += [z] * max(p, sum(1 for u in U if u == z))
+    Ub += [bk[-1]] * (p + 1)
+    coef = [c[0] for c in oracle.refine_state(State(list(U), p, [(x,) for x in w], None, True), Ub, p).P]
+    # pieces: consecutive groups; with interior multiplicity p pieces share their end coefficient, with p+1 they do not
+    pieces, k = [], 0
+    for idx, z in enumerate(bk[:-1]):
+        pieces.append(coef[k:k + p + 1])
+        nxt = bk[idx + 1]
+        m = sum(1 for u in Ub if u == nxt)
+        k += p if (m == p and idx + 1 < len(bk) - 1) else p + 1
+    def positive(b, d):
+        if all(x > 0 for x in b):
+            return True
+        if b[0] <= 0 or b[-1] <= 0 or d == 0:
+            return False
+        left, right, cur = [b[0]], [b[-1]], list(b)
+        while len(cur) > 1:
+            cur = [(x + y) / 2 for x, y in zip(cur[:-1], cur[1:])]
+            left.append(cur[0])
+            right.append(cur[-1])
+        return positive(left, d - 1) and positive(right[::-1], d - 1)
+    return all(len(b) == p + 1 and positive(b, depth) for b in pieces)
 
 
 def breaks_of(U):
